@@ -649,8 +649,8 @@ func c08Concurrent(c *core.Ctx, res *core.Result) {
 	// successful puts in real-time order: running maximum sweep
 	type w struct {
 		call, ret int64
-		seq      uint64
-		val      string
+		seq       uint64
+		val       string
 	}
 	var ws []w
 	for _, o := range run.ops {
